@@ -48,9 +48,12 @@ Theorem C19_shape_removal_order_independent :
 Proof. intros stmt. exact remove_gone_perm. Qed.
 Print Assumptions C19_shape_removal_order_independent.
 
-(** SgraphFromSelectorsTripleYielder (endpoint mode): [list(set(target nodes))]
-    fixes the order in which the nodes' triples are fetched.  PARTIAL: only the
-    MULTISET of yielded triples is independent of that order ... *)
+(** SgraphFromSelectorsTripleYielder (endpoint mode): the order of the target
+    nodes fixes the order in which the nodes' triples are fetched.  Only the
+    MULTISET of yielded triples is independent of that order (this theorem) ...
+    Since notes/proposed_fixes/C19-target-node-order.diff the order is no
+    longer an oracle (insertion-ordered dict instead of a set): the site has
+    left corpus/C19/sites.json and these two statements document why it had to. *)
 Theorem C19_target_order_partial :
   forall (triple : Type) (po : str -> list triple) (obj_iri : triple -> option str) (cls : str -> list triple)
          (classes_at_last_level : bool) (o o' : list str),
@@ -63,8 +66,8 @@ Print Assumptions C19_target_order_partial.
 (** ... the SEQUENCE is not, and later stages observe it: the order in which
     property keys are first seen is the insertion order of the profile
     dictionaries, which the stable sort of equally frequent constraints keeps.
-    Known finding C19-F2 (the ShExC text of an endpoint extraction changes with
-    PYTHONHASHSEED). *)
+    Finding C19-F2 (the ShExC text of an endpoint extraction changed with
+    PYTHONHASHSEED), fixed. *)
 Definition po_w (s : str) : list (str * str) :=
   if str_eqb s (Str "a") then [(Str "a", Str "p")] else if str_eqb s (Str "b") then [(Str "b", Str "q")] else [].
 Lemma C19_target_order_refuted :
